@@ -35,8 +35,8 @@ ENUMERATED = ('sweep',)       # families whose size is the size of an enumeratio
 
 def plan(tier):
     if tier == "quick":
-        return [("ev", 150), ("sweep", len(KINDS) * len(OFFSETS) * 2), ("shared", 20)]
-    return [("ev", 10000), ("sweep", len(KINDS) * len(OFFSETS) * 2 * 6), ("shared", 600)]
+        return [("ev", 150), ("sweep", len(KINDS) * len(OFFSETS) * 2), ("shared", 20), ("gpio", 40)]
+    return [("ev", 10000), ("sweep", len(KINDS) * len(OFFSETS) * 2 * 6), ("shared", 600), ("gpio", 3000)]
 
 
 def waveform(rng, n, kind):
@@ -59,6 +59,9 @@ def waveform(rng, n, kind):
 
 
 def generate_indexed(family, index, rng, tier):
+    if family == "gpio":
+        from props import c15_gpio
+        return c15_gpio.generate(rng, tier)
     if family == "sweep":
         per = len(OFFSETS)
         cfg, oi = divmod(index, per)
@@ -173,6 +176,9 @@ class Env(Agent):
 
 
 def run(scn):
+    if scn.get("family") == "gpio":
+        from props import c15_gpio
+        return c15_gpio.run(scn)
     from migen import Module
     from litex.soc.interconnect import csr_bus
     from litex.soc.interconnect.csr_eventmanager import SharedIRQ
